@@ -269,7 +269,7 @@ TRANSCRIPT_OPS = FEATURE_INTERVAL_COMMON + GFF_BED + [
     M("get_cds_sequence", result="sequence", weight=1.5),
     M("get_protein_sequence", result="sequence", weight=1.5),
     M("get_protein_sequence", "bool", "table", alias="get_protein_sequence(args)", weight=2.5),
-    M("incorporate_variants", "ref:variants", result="transcript", weight=0.8),
+    M("incorporate_variants", "ref:variants", result="transcript", weight=1.5),
 ]
 
 CDS_OPS = FEATURE_INTERVAL_COMMON + [
@@ -425,7 +425,7 @@ GENE_OPS = COLLECTION_COMMON + [
     M("query_by_guids", "guids:children", result="gene", weight=1.5),
     S("to_gff", _to_gff_str, weight=3.0),
     S("to_gff(args)", _to_gff_str, "bool", "bool", weight=1.5),
-    M("incorporate_variants", "ref:variants", result="gene", weight=0.8),
+    M("incorporate_variants", "ref:variants", result="gene", weight=2.5),
     A("guid_map", weight=0.5),
 ]
 
@@ -441,7 +441,7 @@ FEATURE_COLLECTION_OPS = COLLECTION_COMMON + [
     M("query_by_guids", "guids:children", result="feature_collection", weight=1.5),
     S("to_gff", _to_gff_str, weight=3.0),
     S("to_gff(args)", _to_gff_str, "bool", "bool", weight=1.5),
-    M("incorporate_variants", "ref:variants", result="feature_collection", weight=0.8),
+    M("incorporate_variants", "ref:variants", result="feature_collection", weight=2.5),
 ]
 
 VARIANT_COLLECTION_OPS = [
@@ -505,7 +505,7 @@ ANNOTATION_COLLECTION_OPS = COLLECTION_COMMON + [
     M("get_children_by_type", "childtype"),
     S("to_gff", _to_gff_str, weight=3.5),
     S("to_gff(args)", _to_gff_str, "bool", "bool", weight=1.5),
-    M("incorporate_variants", "ref:variants", result="collection", weight=0.8),
+    M("incorporate_variants", "ref:variants", result="collection", weight=2.5),
     S("pickle", _pickle_roundtrip, result="collection", weight=1.5),
 ]
 
@@ -629,6 +629,56 @@ SEQUENCE_OPS = [
     S("hash==twin", _hash_eq, "twin"),
     S("__eq__(ref)", _eq, "ref:sequence"),
 ]
+
+# ---- containers built from ready-made (live) children: what another caller does with the objects a first caller
+# still holds.  The new container is given the parent the children already live on (or none): a constructor that is
+# handed ANOTHER parent re-parents its children in place - that is the documented ownership contract of the
+# constructors (interval.py, _reset_parent), not an "operation" in the sense of the property, and is not asked here.
+
+
+def _own_parent(o, keep):
+    return o._parent_or_seq_chunk_parent if keep else None
+
+
+def _regroup_gene(o, keep):
+    from inscripta.biocantor.gene.gene import GeneInterval
+
+    return GeneInterval(transcripts=list(o.transcripts), gene_id="regrouped", gene_type=o.gene_type, sequence_name=o.sequence_name,
+                        parent_or_seq_chunk_parent=_own_parent(o, keep))
+
+
+def _gene_of_transcript(o, keep):
+    from inscripta.biocantor.gene.gene import GeneInterval
+
+    return GeneInterval(transcripts=[o], gene_id="solo", sequence_name=o.sequence_name, parent_or_seq_chunk_parent=_own_parent(o, keep))
+
+
+def _regroup_fc(o, keep):
+    from inscripta.biocantor.gene.feature import FeatureIntervalCollection
+
+    return FeatureIntervalCollection(feature_intervals=list(o.feature_intervals), feature_collection_id="regrouped", sequence_name=o.sequence_name,
+                                     parent_or_seq_chunk_parent=_own_parent(o, keep))
+
+
+def _fc_of_feature(o, keep):
+    from inscripta.biocantor.gene.feature import FeatureIntervalCollection
+
+    return FeatureIntervalCollection(feature_intervals=[o], feature_collection_id="solo", sequence_name=o.sequence_name, parent_or_seq_chunk_parent=_own_parent(o, keep))
+
+
+def _recollect(o, keep):
+    from inscripta.biocantor.gene.collections import AnnotationCollection
+
+    return AnnotationCollection(genes=list(o.genes) or None, feature_collections=list(o.feature_collections) or None,
+                                variant_collections=list(o.variant_collections) or None, sequence_name=o.sequence_name, name="recollected",
+                                parent_or_seq_chunk_parent=_own_parent(o, keep))
+
+
+GENE_OPS += [S("GeneInterval(transcripts=self.transcripts)", _regroup_gene, "bool", result="gene", weight=1.2)]
+TRANSCRIPT_OPS += [S("GeneInterval(transcripts=[self])", _gene_of_transcript, "bool", result="gene", weight=1.0)]
+FEATURE_COLLECTION_OPS += [S("FeatureIntervalCollection(feature_intervals=self.feature_intervals)", _regroup_fc, "bool", result="feature_collection", weight=1.2)]
+FEATURE_OPS += [S("FeatureIntervalCollection(feature_intervals=[self])", _fc_of_feature, "bool", result="feature_collection", weight=1.0)]
+ANNOTATION_COLLECTION_OPS += [S("AnnotationCollection(children=self.children)", _recollect, "bool", result="collection", weight=1.2)]
 
 REGISTRY = {
     "transcript": TRANSCRIPT_OPS,
